@@ -10,7 +10,7 @@ def needs(pid, tier):
     gen = GENF if t else GENQ
     table = {
         'C02': (['ws-default'] + (['logos-forbid'] if t else []), gen, False),
-        'C03': (['ws-default'], gen, False),
+        'C03': (['ws-default', 'logos-forbid'], gen, False),
         'C04': (['fixture-cg', 'ws-default'] + (['logos-release', 'logos-forbid'] if t else []), [], t),
         'C05': (['fixture-rt', 'ws-default', 'logos-forbid'] + (['logos-release'] if t else []), GENFF if t else GENQ, t),
         'C06': ([], gen, False),
